@@ -31,6 +31,22 @@ def via_json_classes(o): return json.loads(json.dumps(o, cls=MeasuredJSONEncoder
 def via_installed(o):
     with codecs_installed():
         return json.loads(json.dumps(o))
+def via_installed_file(o):
+    # the file API of the standard library (json.dump / json.load) and a JSONDecoder / JSONEncoder made with no arguments
+    import io
+    with codecs_installed():
+        buf = io.StringIO(); json.dump(o, buf); buf.seek(0)
+        return json.load(buf)
+def via_install_uninstall(o):
+    import io, measured.json as mj
+    mj.install()
+    try:
+        buf = io.StringIO(); json.dump(o, buf); buf.seek(0)
+        a = json.load(buf); b = json.loads(json.dumps(o))
+    finally:
+        mj.uninstall()
+    if isinstance(o, (Unit, Prefix, Dimension)) and a is not b: raise RuntimeError("json.load and json.loads disagree under install()")
+    return a
 def via_pydantic(o):
     from pydantic import TypeAdapter
     ta = TypeAdapter(type(o))
@@ -42,7 +58,7 @@ def via_pydantic_python(o):
 
 # pickle protocols 2..5: protocols 0 and 1 cannot pickle any class with __slots__ and no __getstate__ (a CPython rule, not the library's)
 CODECS = [("pickle", lambda o: pickle.loads(pickle.dumps(o))), ("pickle2", lambda o: pickle.loads(pickle.dumps(o, protocol=2))), ("copy", copy.copy), ("deepcopy", copy.deepcopy),
-          ("json", via_json_classes), ("json-installed", via_installed), ("pydantic", via_pydantic), ("pydantic-dict", via_pydantic_python)]
+          ("json", via_json_classes), ("json-installed", via_installed), ("json-installed-file", via_installed_file), ("json-install-fn", via_install_uninstall), ("pydantic", via_pydantic), ("pydantic-dict", via_pydantic_python)]
 IDENTITY_CODECS = ("pickle", "pickle2", "copy", "deepcopy")
 
 def describe(o):
